@@ -376,20 +376,27 @@ def advanceRollbackFrame (s : P2P) (now : Nat) (reqs : List Request) : M (P2P ×
   let s ← s.registerLocalInputs now
   s.rollbackGate reqs
 
+/-- One confirmed input as lockstep hands it to the game: Disconnected for the blank input of a
+disconnected player, Confirmed otherwise. -/
+def lockstepInput (s : P2P) (gameFrame : Frame) (p : PlayerInput × Nat) : M (Input × InputStatus) := do
+  let cs := rget s.localConnectStatus p.2
+  ensure ((p.1.frame == NULL_FRAME) == (cs.disconnected && cs.lastFrame < gameFrame))
+    "advance_lockstep_frame: debug_assert on confirmed_inputs"
+  pure (p.1.input, if p.1.frame == NULL_FRAME then InputStatus.disconnected else InputStatus.confirmed)
+
+/-- Lockstep: the game frame is simulated only when every connected player's input for it is there. -/
+def lockstepAdvance (s : P2P) (gameFrame confirmed : Frame) (reqs : List Request) : M (P2P × List Request) :=
+  if confirmed ≥ gameFrame then do
+    let cis ← s.sync.confirmedInputs gameFrame s.localConnectStatus
+    let inputs ← cis.zipIdx.mapM (s.lockstepInput gameFrame)
+    pure ({ s with sync := s.sync.advanceFrame, pendingLocalInputs := [] }, reqs ++ [.advance inputs])
+  else pure (s, reqs)
+
 def advanceLockstepFrame (s : P2P) (now : Nat) (reqs : List Request) : M (P2P × List Request) := do
   let s ← s.registerLocalInputs now
   let gameFrame := s.sync.currentFrame
   let confirmed ← s.confirmedFrame
-  let (s, reqs) ←
-    if confirmed ≥ gameFrame then do
-      let cis ← s.sync.confirmedInputs gameFrame s.localConnectStatus
-      let inputs ← cis.zipIdx.mapM fun (pi, h) => do
-        let cs := rget s.localConnectStatus h
-        ensure ((pi.frame == NULL_FRAME) == (cs.disconnected && cs.lastFrame < gameFrame))
-          "advance_lockstep_frame: debug_assert on confirmed_inputs"
-        pure (pi.input, if pi.frame == NULL_FRAME then InputStatus.disconnected else InputStatus.confirmed)
-      pure ({ s with sync := s.sync.advanceFrame, pendingLocalInputs := [] }, reqs ++ [.advance inputs])
-    else pure (s, reqs)
+  let (s, reqs) ← s.lockstepAdvance gameFrame confirmed reqs
   let consumed := s.sync.currentFrame - 1
   let confirmed ← s.confirmedFrame
   let bookkeeping := min confirmed consumed
